@@ -725,6 +725,177 @@ async fn scenario(a: &ShardArgs, idx: u64) {
     }
 }
 
+const STATIC_GROUPS: [u8; 8] = [1, 3, 10, 20, 21, 30, 40, 110];
+const EVENT_GROUPS: [u8; 8] = [2, 4, 11, 22, 23, 32, 42, 111];
+
+/// groups a response to a one-header READ of (group, variation) may carry (51 = the common time of g2v3 / g4v3)
+fn read_family(g: u8, v: u8) -> Vec<u8> {
+    if g == 60 {
+        return match v {
+            1 => STATIC_GROUPS.to_vec(),
+            2..=4 => {
+                let mut e = EVENT_GROUPS.to_vec();
+                e.push(51);
+                e
+            }
+            _ => vec![],
+        };
+    }
+    if STATIC_GROUPS.contains(&g) || g == 0 || g == 34 {
+        return vec![g];
+    }
+    if EVENT_GROUPS.contains(&g) {
+        return if g == 2 || g == 4 { vec![g, 51] } else { vec![g] };
+    }
+    vec![]
+}
+
+/// part T: the READ selection table. One READ per (group, variation) the library knows x qualifier (all objects, 8- and
+/// 16-bit range, 8- and 16-bit count) against a database with three points of every type and events of every type: the
+/// response carries objects of the requested group only (none for groups that have no point type), of the requested
+/// variation when one is named (or the variation it is promoted to), inside the requested range, no more than the
+/// requested count, and for a default-variation static READ exactly the points selected.
+async fn read_table(a: &ShardArgs) {
+    let mut r = a.rng("c12/table");
+    let mut cfg = OutCfg::default();
+    cfg.sol_tx = 2048;
+    cfg.confirm_timeout_ms = 50;
+    cfg.class_zero_octets = true;
+    let mut rr = r.fork();
+    let mut sim = OutSim::start_with(cfg.clone(), |db| {
+        populate(db, &mut rr, 3);
+        some_events(db, &mut rr, 3, 24, 1000);
+    })
+    .await;
+    let _ = sim.collect();
+    let mut cases: Vec<(u8, u8)> = crate::verif::util::all_variations().iter().map(|v| v.to_group_and_var()).collect();
+    // and a few the library does not know
+    cases.extend([(5u8, 1u8), (31, 9), (33, 9), (60, 5), (60, 0), (1, 3), (200, 1), (255, 255), (43, 9), (35, 1)]);
+    let mut seq = 0u8;
+    let mut n = 0u64;
+    for (g, v) in cases {
+        for q in 0..5u8 {
+            n += 1;
+            if n % a.nshards != a.shard {
+                continue;
+            }
+            seq = (seq + 1) & 15;
+            let b = ra::B::request(ra::F_READ, seq);
+            let (rq, range, count, qn): (Vec<u8>, Option<(u32, u32)>, Option<u32>, &str) = match q {
+                0 => (b.all(g, v).done(), None, None, "all"),
+                1 => (b.range8(g, v, 0, 1, &[]).done(), Some((0, 1)), None, "range8"),
+                2 => (b.range16(g, v, 1, 2, &[]).done(), Some((1, 2)), None, "range16"),
+                3 => (b.count8(g, v, 2, &[]).done(), None, Some(2), "count8"),
+                _ => (b.count16(g, v, 2, &[]).done(), None, Some(2), "count16"),
+            };
+            let rx = sim.request(&rq).await;
+            out::eval(1);
+            let frs: Vec<Vec<u8>> = rx
+                .iter()
+                .filter_map(|x| x.fragment())
+                .filter(|f| f.len() >= 4 && f[1] == ra::F_RESPONSE)
+                .map(|f| f.to_vec())
+                .collect();
+            let viol = |rule: &str, why: String, resp: Option<&Vec<u8>>| {
+                out::violation(
+                    P,
+                    &format!("C12.{rule}"),
+                    &format!("g{g}v{v}|{qn}"),
+                    J::obj(vec![
+                        ("why", J::s(why)),
+                        ("request", J::s(hex(&rq))),
+                        ("response", J::s(resp.map(|x| hex(x)).unwrap_or_default())),
+                    ]),
+                    J::obj(vec![
+                        ("check", J::s("c12")),
+                        ("seed", J::U(a.seed)),
+                        ("shard", J::U(a.shard)),
+                        ("nshards", J::U(a.nshards)),
+                    ]),
+                );
+            };
+            let Some(f) = frs.first() else {
+                viol("T_read_not_answered", "a READ with one object header got no response".into(), None);
+                continue;
+            };
+            let w = ra::walk(ra::F_RESPONSE, &f[4..], true);
+            if w.error.is_some() {
+                viol("T_response_unparsable", format!("{:?}", w.error), Some(f));
+                continue;
+            }
+            let family = read_family(g, v);
+            let mut ok = true;
+            let mut nobj = 0u32;
+            let mut idxs: Vec<u32> = vec![];
+            for h in &w.headers {
+                if !family.contains(&h.group) {
+                    ok = false;
+                    viol("T_foreign_group", format!("the response to a READ of g{g}v{v} carries g{}v{}", h.group, h.var), Some(f));
+                    break;
+                }
+                if h.group == 51 {
+                    continue;
+                }
+                nobj += h.objs.len() as u32;
+                let free_var = matches!(g, 0 | 60 | 110 | 111);
+                let promoted = matches!((g, v, h.var), (1, 1, 2) | (3, 1, 2) | (10, 1, 2));
+                if v != 0 && !free_var && h.var != v && !promoted {
+                    ok = false;
+                    viol("T_other_variation", format!("the response to a READ of g{g}v{v} carries g{}v{}", h.group, h.var), Some(f));
+                    break;
+                }
+                for (k, o) in h.objs.iter().enumerate() {
+                    let i = o.index.unwrap_or(h.start + k as u32);
+                    idxs.push(i);
+                    if let Some((lo, hi)) = range {
+                        if STATIC_GROUPS.contains(&g) && (i < lo || i > hi) {
+                            ok = false;
+                            viol("T_outside_range", format!("index {i} in the response to a READ of [{lo}, {hi}]"), Some(f));
+                        }
+                    }
+                }
+            }
+            if let Some(c) = count {
+                if nobj > c {
+                    ok = false;
+                    viol("T_over_count", format!("{nobj} objects in the response to a READ limited to {c}"), Some(f));
+                }
+            }
+            if ok && STATIC_GROUPS.contains(&g) && v == 0 && count.is_none() {
+                let want: Vec<u32> = match range {
+                    None => vec![0, 1, 2],
+                    Some((lo, hi)) => (lo..=hi).collect(),
+                };
+                if idxs != want {
+                    ok = false;
+                    viol("T_selection", format!("a default-variation READ of g{g} {qn} returned indices {idxs:?}, the database holds 0, 1, 2"), Some(f));
+                } else {
+                    out::count("T_static_selection_exact_ok", 1);
+                }
+            }
+            if ok {
+                out::count("T_read_table_ok", 1);
+                if family.is_empty() && nobj == 0 {
+                    out::count("T_no_objects_for_groups_without_points_ok", 1);
+                }
+                if nobj > 0 {
+                    out::count("T_read_table_with_objects_ok", 1);
+                }
+            }
+            out::distinct(&format!("T/g{g}/{qn}/{}", if nobj > 0 { "objects" } else { "empty" }));
+        }
+    }
+    for p in crate::verif::util::take_panics() {
+        out::violation(
+            P,
+            "C12.panic",
+            &crate::verif::util::norm_location(&p.location),
+            J::s(format!("{} at {} (READ table)", p.message, p.location)),
+            J::Null,
+        );
+    }
+}
+
 pub fn run(a: &ShardArgs) -> Result<(), String> {
     let n = a.n(6000);
     let only: Option<u64> = a
@@ -742,6 +913,10 @@ pub fn run(a: &ShardArgs) -> Result<(), String> {
         }
         out::progress(&format!("scenario {idx}"));
         run_scenario(scenario(a, idx));
+    }
+    if only.is_none() {
+        out::progress("READ table");
+        run_scenario(read_table(a));
     }
     Ok(())
 }
